@@ -223,6 +223,37 @@ step!(c02_t_short_buy_reduce, Some(Side::Sell), Side::Buy, 1, 3, 2);
 step!(c02_t_short_buy_close, Some(Side::Sell), Side::Buy, 2, 3, 2);
 step!(c02_t_short_buy_flip, Some(Side::Sell), Side::Buy, 3, 3, 2);
 
+// thorough: a direct two-fill history from flat - the telescoped identity of the property, checked end to end
+// (sum of realised PnL over closed records + open realised PnL == sells - buys - fees + open quantity at average entry)
+proof! {
+    #[kani::unwind(26)]
+    fn c02_t_two_fills_from_flat() {
+        let s1 = if any_bool() { Side::Buy } else { Side::Sell };
+        let s2 = if any_bool() { Side::Buy } else { Side::Sell };
+        let f1 = fill(s1, dec_pos(2), dec_pos(2), dec_u(2), time_at(1), 0);
+        let f2 = fill(s2, dec_pos(2), dec_pos(2), dec_u(2), time_at(2), 0);
+        let mut pm: PositionManager<InstrumentIndex> = PositionManager { current: None };
+        let c1 = pm.update_from_trade(&f1);
+        let c2 = pm.update_from_trade(&f2);
+        assert!(c1.is_none(), "C02: first fill from flat closed a position");
+        let cash = |f: &Fill| match f.side { Side::Sell => f.price * f.quantity - f.fees.fees, Side::Buy => -(f.price * f.quantity) - f.fees.fees };
+        let net = signed(s1, f1.quantity) + signed(s2, f2.quantity);
+        let closed_sum = c2.as_ref().map_or(Decimal::ZERO, |c| c.pnl_realised);
+        let (open_realised, open_value) = pm.current.as_ref().map_or((Decimal::ZERO, Decimal::ZERO), |p| (p.pnl_realised, net * p.price_entry_average));
+        assert!(deq(closed_sum + open_realised, cash(&f1) + cash(&f2) + open_value), "C02: realised PnL over the history does not conserve the cash flows");
+        match &pm.current {
+            Some(p) => assert!(!net.is_zero() && deq(p.quantity_abs, net.abs()) && (p.side == Side::Buy) == (net > Decimal::ZERO), "C02: open position is not the net signed quantity"),
+            None => assert!(net.is_zero(), "C02: flat although the net quantity is not zero"),
+        }
+        let fees_total = pm.current.as_ref().map_or(Decimal::ZERO, |p| p.fees_enter.fees + p.fees_exit.fees) + c2.as_ref().map_or(Decimal::ZERO, |c| c.fees_enter.fees + c.fees_exit.fees);
+        assert!(deq(fees_total, f1.fees.fees + f2.fees.fees), "C02: entry + exit fees do not add up to the fees of the fills");
+        kani::cover!(c2.is_some() && pm.current.is_some(), "flip on the second fill");
+        kani::cover!(c2.is_some() && pm.current.is_none(), "exact close on the second fill");
+        kani::cover!(s1 == s2, "increase");
+        core::mem::forget((pm, c1, c2, f1, f2));
+    }
+}
+
 // a fill for another instrument must leave the position untouched
 proof! {
     #[kani::unwind(26)]
